@@ -4,6 +4,11 @@ import json, os, sys
 ROOT = os.path.dirname(os.path.dirname(os.path.abspath(__file__)))
 
 CHECKS = {
+ "C16": ("exploration",
+         "property-based testing over generated histories and generated request lists: before/after fingerprint oracle around every read, repeat-equality (determinism), reference ledger + replayed-state oracle for every successful reading, metamorphic relation 'later commits and forks do not change a historical reading', typed-refusal oracle for every invalid/unavailable request shape",
+         "Observation and optic requests of every frame/projection/coordinate/aperture/budget shape are served twice against generated multi-worldline histories, then again after further commits and a fork: nothing observable in runtime, provenance or engine changes around a read; repeats are identical including the artifact hash and distinct artifacts never share one; resolved tick, commit id, state root, commit stamp, recorded outputs and query bytes equal the harness's commit-time ledger and the replayed state; historical readings are content-stable; invalid or unavailable requests get the documented typed refusal, never a reading; bounded readings respect their budget.",
+         "The asking-time freshness stamp is excluded from cross-time comparison (by design of the API). Query observers are harness code that answer from the resolved coordinate handed to them.",
+         "DESIGN.md §4 C16"),
  "C08": ("exploration",
          "property-based testing: identity laws of the ingress id; arrival-order/retry metamorphic relation over rounds of submissions with exhaustive permutations for small rounds; reference inbox model; history invariants (at-most-once, conservation) over generated scripts",
          "Ingress ids depend only on (kind, bytes, parent set); for fixed per-round sets of intents every arrival order and retry pattern yields identical dispositions, StepRecords, pending counts, state fingerprints and provenance; a reference inbox predicts committed heads, batch sizes and which intents run; across histories no (head, intent) commits twice and accepted = pending + admitted at every step.",
